@@ -228,6 +228,62 @@ static void do_delete(int pos)
 	check_tree(NULL);
 }
 
+/* ---- scale: a tree as tall as the height field allows in practice ---- */
+static long scale_count;
+
+static int scale_walk(struct iv_avl_node *an, struct iv_avl_node *parent, long *prev_key)
+{
+	int hl, hr, h;
+	struct node *n;
+
+	if (an == NULL)
+		return 0;
+	sx_assert(an->parent == parent, "avl.parent-link");
+	hl = scale_walk(an->left, an, prev_key);
+	n = iv_container_of(an, struct node, an);
+	sx_assert(*prev_key < n->key, "avl.strict-order");
+	*prev_key = n->key;
+	scale_count++;
+	hr = scale_walk(an->right, an, prev_key);
+	h = 1 + (hl > hr ? hl : hr);
+	sx_assert(an->height == h, "avl.height-exact");
+	sx_assert(hl - hr <= 1 && hr - hl <= 1, "avl.balanced");
+	return h;
+}
+
+static void scale_mode(int N)
+{
+	struct node *arr = calloc(N, sizeof(*arr));	/* zero-filled, as from a fresh allocation arena */
+	struct iv_avl_node *an;
+	long prev = -1, i, cnt = 0;
+	int h;
+
+	/* ascending keys: the tree is perfectly filled level by level, height log2(N)+1 */
+	for (i = 0; i < N; i++) {
+		arr[i].key = i;
+		arr[i].id = (int)i;
+		sx_assert(iv_avl_tree_insert(&tree, &arr[i].an) == 0, "avl.insert-failed");
+	}
+	scale_count = 0;
+	h = scale_walk(tree.root, NULL, &prev);
+	sx_assert(scale_count == N, "avl.population");
+	if (h >= 16)
+		sx_cover("avl.height-16-reached");
+	/* delete every second node, then everything that is left of the upper half */
+	for (i = 0; i < N; i += 2)
+		iv_avl_tree_delete(&tree, &arr[i].an);
+	for (i = N / 2 + 1; i < N; i += 2)
+		iv_avl_tree_delete(&tree, &arr[i].an);
+	prev = -1;
+	scale_count = 0;
+	scale_walk(tree.root, NULL, &prev);
+	for (an = iv_avl_tree_min(&tree); an != NULL; an = iv_avl_tree_next(an))
+		cnt++;
+	sx_assert(cnt == scale_count, "avl.forward-traversal");
+	sx_cover("avl.scale-complete");
+	free(arr);
+}
+
 void sx_main(void)
 {
 	int mode = sx_opt("mode", 0);
@@ -236,6 +292,10 @@ void sx_main(void)
 	int h, i;
 
 	INIT_IV_AVL_TREE(&tree, cmp);
+	if (mode == 2) {
+		scale_mode((int)sx_opt("N", 33000));
+		return;
+	}
 	if (mode == 0) {
 		/* inductive step */
 		h = sx_opt("exactH", -1);
